@@ -182,7 +182,8 @@ class Edits(Profile):
                        "failing_remove_nonchild_raised", "failing_replace_mismatch_raised",
                        "failing_replace_nonchild_raised", "failing_shift_nonmember_raised", "failing_shift_baddir_raised",
                        "query_find_child", "query_find_all_children", "query_find_descendant", "query_find_all_descendants",
-                       "query_path_single", "query_path_all", "query_ancestry", "query_child_index")
+                       "query_path_single", "query_path_all", "query_ancestry", "query_child_index",
+                       "add_child_index_out_of_range", "edit_or_query_on_parent_with_17_or_more_children")
     own_kinds = frozenset(["add_child", "remove_child", "remove_children", "replace_child", "shift", "query",
                            "x_remove_nonchild", "x_replace_mismatch", "x_replace_nonchild",
                            "x_shift_nonmember", "x_shift_baddir"])
@@ -291,6 +292,10 @@ class Edits(Profile):
 
     def probes(self, c, P):
         k = c.op["k"]
+        if k in ("shift", "query") and "p" in c.R or k == "query":
+            par = c.R.get("p", c.R.get("n"))
+            if par is not None and len(c.pre.cells[par][CH]) >= 17:
+                bump(P, "edit_or_query_on_parent_with_17_or_more_children")
         if k == "shift":
             n = c.exp.notes
             bump(P, "shift_%s_%s_%s" % ("sib" if c.op["sib"] else "pos", "right" if c.op["right"] else "left",
@@ -679,7 +684,8 @@ class CopyP(Profile):
                        "edit_original_side:attr_item", "edit_copy_side:extras_item", "edit_original_side:extras_item",
                        "edit_copy_side:add_ns", "edit_original_side:add_ns", "edit_copy_side:add_child",
                        "edit_original_side:add_child", "edit_copy_side:remove_child", "edit_original_side:remove_child",
-                       "edit_copy_side:rm_ns", "edit_original_side:rm_attr", "edit_copy_side:shift")
+                       "edit_copy_side:rm_ns", "edit_original_side:rm_attr", "edit_copy_side:shift", "copy_depth_gt_32",
+                       "edit_copy_side:nsmap_item", "edit_original_side:nsmap_item")
 
     def weights(self, cfg, rng):
         return {"new": 8, "add_child": 12, "copy": 8, "set_content": 3, "set_tail": 2, "set_prefix": 2,
@@ -781,6 +787,13 @@ class CopyP(Profile):
         if k == "copy" and c.out.ok:
             n = len(c.pre.subtree(c.R["n"]))
             bump(P, "copy_subtree_1" if n == 1 else "copy_subtree_2_5" if n <= 5 else "copy_subtree_gt5")
+            if n > 32:
+                depth, frontier = 0, [c.R["n"]]
+                while frontier:
+                    depth += 1
+                    frontier = [k2 for h in frontier for k2 in c.pre.cells[h][CH] if isinstance(k2, int)]
+                if depth > 32:
+                    bump(P, "copy_depth_gt_32")
             sh = st.get("alias_pre")
             if sh is not None and n > 1:
                 o = c.R["n"]
